@@ -231,6 +231,9 @@ func (r *siteRig) probe(label string, next httpserver.Handler, w http.ResponseWr
 			// (a handler that had prepared its header when it ran into the error it now reports)
 			w.Header().Set("Content-Length", "5000")
 		}
+		if sc.preCE != "" {
+			w.Header().Set("Content-Encoding", sc.preCE) // (likewise: the coding of the body it did not get to write)
+		}
 		if sc.retErr {
 			return sc.status, fmt.Errorf("sim: handler error for %s", id)
 		}
@@ -990,6 +993,9 @@ func (r *siteRig) genReq(id, site string) *sreq {
 		sc.status = []int{404, 500, 403, 400, 503, 401, 200, 0, 302}[st.Draw(9)]
 		sc.retErr = pick(40)
 		sc.setCL = pick(15)
+		if pick(12) {
+			sc.preCE = []string{"gzip", "br"}[st.Draw(2)]
+		}
 		if sc.status == 200 || sc.status == 0 || sc.status == 302 {
 			sc.mode = "write" // returning a non-error status without writing is outside the handler contract
 			sc.status = 200
